@@ -9,9 +9,14 @@ Exit status 0 and the file (re)written only if its content changed.
 Exit status 3 if a table cannot be found (the code was reshaped): that is a
 broken correspondence and handled as such by ./check.
 """
+import json
 import os
 import re
 import sys
+
+sys.path.insert(0, os.path.dirname(os.path.abspath(__file__)))
+from rustlex import (LexError, close_of, find_all, find_match, find_seq, impl_body, is_id, is_p, item_body, lex, match_arms,
+                     split_top, strip_attrs, text_of)
 
 REPO = os.environ.get("VERIF_REPO", "/repo")
 OUT = os.path.join(os.path.dirname(os.path.abspath(__file__)), "..", "lean", "Abasic", "Extracted.lean")
@@ -24,6 +29,18 @@ class Missing(Exception):
 def read(rel):
     with open(os.path.join(REPO, rel), encoding="utf-8") as f:
         return f.read()
+
+
+_LEXED = {}
+
+
+def toks_of(rel):
+    if rel not in _LEXED:
+        try:
+            _LEXED[rel] = lex(read(rel))
+        except (LexError, OSError, ValueError) as e:
+            raise Missing("%s: cannot be read as Rust tokens (%s)" % (rel, e))
+    return _LEXED[rel]
 
 
 def need(m, what):
@@ -44,153 +61,405 @@ def lean_char(c):
     return "'" + c + "'"
 
 
-def const_expr(src, name, what):
-    m = need(re.search(r"const\s+%s\s*:\s*\w+\s*=\s*([^;]+);" % name, src), what)
-    expr = m.group(1).strip()
-    if not re.fullmatch(r"[0-9_ <>+*()-]+", expr):
-        raise Missing(what + " (unsupported constant expression: %s)" % expr)
-    return int(eval(expr.replace("_", "")))
-
-
-def main():
-    tok = read("abasic-core/src/tokenizer.rs")
-
-    # --- enum Token: payload-free variants become `Kw`, the rest are checked.
-    m = need(re.search(r"pub enum Token\s*\{(.*?)\n\}", tok, re.S), "enum Token")
-    variants = []
-    payload = {}
-    for line in m.group(1).splitlines():
-        line = line.strip().rstrip(",")
-        if not line or line.startswith("//"):
-            continue
-        mm = re.fullmatch(r"(\w+)(\((.*)\))?", line)
-        need(mm, "enum Token variant: " + line)
-        if mm.group(2):
-            payload[mm.group(1)] = mm.group(3)
+def const_expr(rel, name):
+    """value of `const NAME: ty = <integer expression>;` (literals with _ and type suffixes, + - * << >> and brackets, u64::pow)"""
+    toks = toks_of(rel)
+    i = find_seq(toks, ["const", name, ":"])
+    if i < 0:
+        i = find_seq(toks, ["static", name, ":"])
+    if i < 0:
+        raise Missing("%s: const %s" % (rel, name))
+    j = find_seq(toks, ["="], i)
+    k = find_seq(toks, [";"], j)
+    need(j > 0 and k > j, "%s: const %s" % (rel, name))
+    parts = []
+    for kind, t in toks[j + 1:k]:
+        if kind == "num":
+            mm = re.fullmatch(r"(0x[0-9a-fA-F_]+|0b[01_]+|0o[0-7_]+|[0-9][0-9_]*)(?:[ui](?:8|16|32|64|128|size))?", t)
+            if not mm:
+                raise Missing("%s: const %s (unsupported literal %s)" % (rel, name, t))
+            parts.append(str(int(mm.group(1).replace("_", ""), 0)))
+        elif kind == "punct" and t in ("+", "-", "*", "<<", ">>", "(", ")", "/", "%"):
+            parts.append("//" if t == "/" else t)
+        elif kind == "id" and t == "as":
+            parts.append("#")  # `as u64`: drop the cast and its type
+        elif kind == "id" and parts and parts[-1] == "#":
+            parts.pop()
         else:
-            variants.append(mm.group(1))
-    expected_payload = {
-        "Remark": "Rc<String>",
-        "Symbol": "Symbol",
-        "StringLiteral": "Rc<String>",
-        "NumericLiteral": "f64",
-        "Data": "Rc<Vec<DataElement>>",
-    }
+            raise Missing("%s: const %s (unsupported constant expression: %s)" % (rel, name, text_of(toks[j + 1:k])))
+    try:
+        return int(eval(" ".join(parts)))
+    except Exception:
+        raise Missing("%s: const %s (cannot evaluate %s)" % (rel, name, " ".join(parts)))
+
+
+def fn_body(toks, name, what, start=0, end=None):
+    r = item_body(toks if end is None else toks[:end], "fn", name, start)
+    if r is None:
+        raise Missing(what + ": fn " + name)
+    return r
+
+
+def write_literal(body):
+    """the format string of `write!(f, "..." [, args])` / `f.write_str("...")` in an arm body, with its argument tokens"""
+    i = find_seq(body, ["write", "!", "("])
+    if i >= 0:
+        j = close_of(body, i + 2)
+        args = split_top(body[i + 3:j])
+        if len(args) >= 2 and len(args[1]) == 1 and args[1][0][0] == "str":
+            return args[1][0][1], args[2:]
+        return None
+    i = find_seq(body, ["write_str", "("])
+    if i >= 0:
+        j = close_of(body, i + 1)
+        inner = body[i + 2:j]
+        if len(inner) == 1 and inner[0][0] == "str":
+            return inner[0][1], []
+    return None
+
+
+def variant_of(pat, enum):
+    """pattern `[&]Enum::Variant[(binder)]` -> (Variant, binder or None); None for anything else"""
+    pat = [t for t in pat if not is_p(t, "&")]
+    if len(pat) >= 3 and is_id(pat[0], enum) and is_p(pat[1], "::") and pat[2][0] == "id":
+        if len(pat) == 3:
+            return pat[2][1], None
+        if is_p(pat[3], "(") and close_of(pat, 3) == len(pat) - 1:
+            return pat[2][1], text_of(pat[4:-1])
+    return None
+
+
+def display_arms(rel, ty, what):
+    """{Variant: (format string, [argument texts with the binder replaced by $0])} of `impl Display for ty`"""
+    toks = toks_of(rel)
+    out = {}
+    for (o, c) in impl_body(toks, "Display", ty):
+        fo, fc = fn_body(toks, "fmt", what, o, c + 1)
+        for mi in find_all(toks, ["match"], fo, fc):
+            brace = find_seq(toks, ["{"], mi, fc)
+            if brace < 0:
+                continue
+            for pat, body in match_arms(toks, brace):
+                v = variant_of(pat, ty)
+                if not v:
+                    continue
+                lit = write_literal(body)
+                if lit is None:
+                    continue
+                args = []
+                for a in lit[1]:
+                    t = text_of(a)
+                    if v[1] and re.fullmatch(r"\w+", v[1]):
+                        t = re.sub(r"\b%s\b" % re.escape(v[1]), "$0", t)
+                    args.append(t)
+                fmt = lit[0]
+                if v[1] and re.fullmatch(r"\w+", v[1]):
+                    fmt = fmt.replace("{%s}" % v[1], "{$0}")
+                out[v[0]] = (fmt, args)
+    if not out:
+        raise Missing(what)
+    return out
+
+
+
+T = {}        # table name -> extracted value
+FAILED = {}   # table name -> reason
+
+# which properties rest on which table (the model driver uses all of them; the
+# list says whose statements or oracles mention what the table defines)
+ALL = ["C%02d" % i for i in range(1, 21)]
+DEPS = {
+    "token.enum": ALL, "token.display": ALL, "token.keywords": ALL, "token.chars": ALL, "token.order": ALL,
+    "tokentype": ["C05", "C20"],
+    "lsp": ["C20"],
+    "builtins": ["C01", "C02", "C03", "C06", "C07", "C09", "C16", "C17", "C18"],
+    "consts.program": ["C01", "C03", "C05", "C06", "C07", "C08", "C10", "C11", "C16", "C20"],
+    "consts.arrays": ["C01", "C03", "C06", "C10", "C16"],
+    "consts.random": ["C03", "C10", "C18", "C19"],
+    "commands": ["C01", "C04", "C07", "C10", "C11", "C14", "C15", "C17", "C19"],
+    "messages": ["C01", "C05", "C15", "C19", "C20"],
+    "walkers": ["C02", "C05", "C06"],
+    "dispatch": ["C03", "C05", "C06", "C09"],
+}
+
+
+def table(name):
+    def deco(fn):
+        try:
+            T[name] = fn()
+        except Missing as e:
+            FAILED[name] = str(e)
+        except (LexError, IndexError, KeyError, ValueError, AssertionError) as e:
+            FAILED[name] = "%s: %r" % (type(e).__name__, e)
+        return fn
+    return deco
+
+
+TOK = "abasic-core/src/tokenizer.rs"
+
+
+@table("token.enum")
+def _():
+    toks = toks_of(TOK)
+    r = need(item_body(toks, "enum", "Token"), "enum Token")
+    variants, payload = [], {}
+    for part in split_top(toks[r[0] + 1:r[1]]):
+        part = strip_attrs(part)
+        if not part:
+            continue
+        need(part[0][0] == "id", "enum Token variant: " + text_of(part))
+        if len(part) == 1:
+            variants.append(part[0][1])
+        elif is_p(part[1], "(") and close_of(part, 1) == len(part) - 1:
+            payload[part[0][1]] = text_of(part[2:-1])
+        else:
+            raise Missing("enum Token variant: " + text_of(part))
+    expected_payload = {"Remark": "Rc<String>", "Symbol": "Symbol", "StringLiteral": "Rc<String>", "NumericLiteral": "f64",
+                        "Data": "Rc<Vec<DataElement>>"}
     if payload != expected_payload:
         raise Missing("payload-carrying Token variants changed: %r" % payload)
+    return variants, payload
 
-    # --- Display for Token
-    m = need(re.search(r"impl Display for Token\s*\{.*?match self\s*\{(.*?)\n        \}", tok, re.S), "Display for Token")
+
+@table("token.display")
+def _():
+    variants, _p = need(T.get("token.enum"), "enum Token")
+    arms = display_arms(TOK, "Token", "Display for Token")
     disp = {}
-    disp_payload = {}
-    for line in m.group(1).splitlines():
-        line = line.strip()
-        mm = re.fullmatch(r'Token::(\w+)\s*=>\s*write!\(f,\s*"((?:[^"\\]|\\.)*)"\),', line)
-        if mm:
-            disp[mm.group(1)] = bytes(mm.group(2), "utf-8").decode("unicode_escape")
-            continue
-        mm = re.fullmatch(r'Token::(\w+)\((\w+)\)\s*=>\s*write!\(f,\s*"((?:[^"\\]|\\.)*)",\s*(.*)\),', line)
-        if mm:
-            disp_payload[mm.group(1)] = (bytes(mm.group(3), "utf-8").decode("unicode_escape"), mm.group(4))
     for v in variants:
-        if v not in disp:
-            raise Missing("Display arm for Token::" + v)
-    exp_disp_payload = {
-        "Remark": ("REM{}", "comment"),
-        "Symbol": ("{}", "name"),
-        "StringLiteral": ('"{}"', "string"),
-        "NumericLiteral": ("{}", "number"),
-        "Data": ("DATA {}", "data_elements_to_string(elements)"),
-    }
-    if disp_payload != exp_disp_payload:
-        raise Missing("Display arms of payload tokens changed: %r" % disp_payload)
+        a = need(arms.get(v), "Display arm for Token::" + v)
+        if a[1]:
+            raise Missing("Display arm for Token::%s takes arguments" % v)
+        disp[v] = a[0]
+    exp = {"Remark": ("REM{}", ["$0"]), "Symbol": ("{}", ["$0"]), "StringLiteral": ('"{}"', ["$0"]), "NumericLiteral": ("{}", ["$0"]),
+           "Data": ("DATA {}", ["data_elements_to_string($0)"])}
+    # the inline form `{name}` is the same thing as `{}` with the binder as argument
+    got = {}
+    for k in exp:
+        a = arms.get(k)
+        if a and not a[1] and "{$0}" in a[0]:
+            a = (a[0].replace("{$0}", "{}"), ["$0"])
+        got[k] = a
+    if got != exp:
+        raise Missing("Display arms of payload tokens changed: %r" % got)
+    return disp
 
-    # --- chomp_any_keyword chain (in match order)
-    m = need(re.search(r"fn chomp_any_keyword\(&mut self\)\s*->\s*Option<Token>\s*\{(.*?)\n    \}", tok, re.S), "chomp_any_keyword")
-    kws = re.findall(r'self\.chomp_keyword\("([A-Z]+)"\)\s*\{\s*Some\(Token::(\w+)\)', m.group(1))
-    if len(kws) < 5 or len(kws) != m.group(1).count("chomp_keyword("):
+
+@table("token.keywords")
+def _():
+    toks = toks_of(TOK)
+    o, c = fn_body(toks, "chomp_any_keyword", TOK)
+    kws = []
+    for i in find_all(toks, ["chomp_keyword", "(", ("str", None), ")"], o, c):
+        kw = toks[i + 2][1]
+        j = i + 4
+        need(is_p(toks[j], "{"), "chomp_any_keyword chain: block after chomp_keyword(%r)" % kw)
+        blk = toks[j + 1:close_of(toks, j)]
+        k = find_seq(blk, ["Token", "::", ("id", None)])
+        need(k >= 0 and len(find_all(blk, ["Token", "::"])) == 1, "chomp_any_keyword chain: result of %r" % kw)
+        kws.append((kw, blk[k + 2][1]))
+    if not kws:
+        # table-driven form: one array literal of ("KEYWORD", Token::Variant) pairs, tried in order
+        tables = []
+        for i in find_all(toks, ["[", "(", ("str", None), ",", "Token", "::"]):
+            parts = split_top(toks[i + 1:close_of(toks, i)])
+            if parts and all(len(q) == 7 and is_p(q[0], "(") and q[1][0] == "str" and is_p(q[2], ",") and is_id(q[3], "Token") and q[5][0] == "id" and is_p(q[6], ")") for q in parts):
+                tables.append([(q[1][1], q[5][1]) for q in parts])
+        need(len(tables) == 1 and find_seq(toks, ["chomp_keyword", "("], o, c) >= 0, "chomp_any_keyword chain (neither an if-chain nor one keyword table)")
+        kws = tables[0]
+    elif len(kws) != len(find_all(toks, ["chomp_keyword"], o, c)):
         raise Missing("chomp_any_keyword chain")
-    rem_kw = need(re.search(r'fn chomp_remark.*?self\.chomp_keyword\("([A-Z]+)"\)', tok, re.S), "REM keyword").group(1)
-    data_kw = need(re.search(r'fn chomp_data.*?self\.chomp_keyword\("([A-Z]+)"\)', tok, re.S), "DATA keyword").group(1)
+    if len(kws) < 5:
+        raise Missing("chomp_any_keyword chain")
 
-    # --- one/two character operators
-    m = need(re.search(r"fn chomp_one_or_two_characters.*?match byte\s*\{(.*?)_ => return None", tok, re.S), "one-character table")
-    one = re.findall(r"b'(.)'\s*=>\s*Token::(\w+),", m.group(1))
+    def one_kw(fn):
+        fo, fc = fn_body(toks, fn, TOK)
+        hits = find_all(toks, ["chomp_keyword", "(", ("str", None), ")"], fo, fc)
+        need(len(hits) == 1, "keyword of " + fn)
+        return toks[hits[0] + 2][1]
+
+    return kws, one_kw("chomp_remark"), one_kw("chomp_data")
+
+
+@table("token.chars")
+def _():
+    toks = toks_of(TOK)
+    o, c = fn_body(toks, "chomp_one_or_two_characters", TOK)
+    mi = find_match(toks, ["byte"], o, c)
+    need(mi >= 0, "one-character table")
+    one = []
+    for pat, body in match_arms(toks, mi):
+        if len(pat) == 1 and pat[0][0] == "byte":
+            need(len(body) == 3 and is_id(body[0], "Token") and body[2][0] == "id", "one-character arm " + text_of(pat + body))
+            one.append((pat[0][1], body[2][1]))
+        elif not (len(pat) == 1 and is_id(pat[0], "_")):
+            raise Missing("one-character table: arm " + text_of(pat))
     if len(one) < 5:
         raise Missing("one-character table")
     two = []
-    body = need(re.search(r"fn chomp_one_or_two_characters(.*?)\n    fn ", tok, re.S), "two-character table").group(1)
-    for first, blk in re.findall(r"token == Token::(\w+)\s*\{(.*?)\n            \}", body, re.S):
-        for ch, res in re.findall(r"next_char == b'(.)'\s*\{.*?Some\(Ok\(Token::(\w+)\)\)", blk, re.S):
-            two.append((first, ch, res))
+    for i in find_all(toks, ["token", "==", "Token", "::", ("id", None), "{"], o, c):
+        first = toks[i + 4][1]
+        bo, bc = i + 5, close_of(toks, i + 5)
+        for j in find_all(toks, [("id", None), "==", ("byte", None), "{"], bo, bc):
+            blk = toks[j + 4:close_of(toks, j + 3)]
+            k = find_seq(blk, ["Token", "::", ("id", None)])
+            need(k >= 0, "two-character operator after " + first)
+            two.append((first, toks[j + 2][1], blk[k + 2][1]))
     if sorted(two) != sorted([("LessThan", ">", "NotEquals"), ("LessThan", "=", "LessThanOrEqualTo"), ("GreaterThan", "=", "GreaterThanOrEqualTo")]):
         raise Missing("two-character operator table changed: %r" % two)
+    return one, two
 
-    # --- order of matchers in chomp_next_token
-    m = need(re.search(r"fn chomp_next_token.*?let result = (.*?)Err\(TokenizationError::IllegalCharacter", tok, re.S), "chomp_next_token")
-    order = re.findall(r"self\.(chomp_\w+)\(\)", m.group(1))
+
+@table("token.order")
+def _():
+    toks = toks_of(TOK)
+    o, c = fn_body(toks, "chomp_next_token", TOK)
+    order = [toks[i + 2][1] for i in find_all(toks, ["self", ".", ("id", None), "(", ")"], o, c) if toks[i + 2][1].startswith("chomp_")]
     if order != ["chomp_any_keyword", "chomp_one_or_two_characters", "chomp_string", "chomp_number", "chomp_remark", "chomp_data", "chomp_symbol"]:
         raise Missing("matcher order in chomp_next_token changed: %r" % order)
+    return order
 
-    # --- token classes
-    tt = read("abasic-core/src/analyzer/token_type.rs")
-    m = need(re.search(r"pub enum TokenType\s*\{(.*?)\}", tt, re.S), "enum TokenType")
-    ttypes = [x.strip() for x in m.group(1).split(",") if x.strip()]
-    cls = dict(re.findall(r"Token::(\w+)(?:\(_\))?\s*=>\s*TokenType::(\w+),", tt))
+
+@table("tokentype")
+def _():
+    rel = "abasic-core/src/analyzer/token_type.rs"
+    toks = toks_of(rel)
+    r = need(item_body(toks, "enum", "TokenType"), "enum TokenType")
+    ttypes = []
+    for part in split_top(toks[r[0] + 1:r[1]]):
+        part = strip_attrs(part)
+        if part:
+            need(len(part) == 1 and part[0][0] == "id", "enum TokenType variant " + text_of(part))
+            ttypes.append(part[0][1])
+    cls = {}
+    for (o, c) in impl_body(toks, "From", "TokenType"):
+        for mi in find_all(toks, ["match"], o, c):
+            brace = find_seq(toks, ["{"], mi, c)
+            for pat, body in match_arms(toks, brace):
+                if len(body) == 3 and is_id(body[0], "TokenType") and is_p(body[1], "::"):
+                    # or-patterns: every alternative gets the class
+                    for alt in split_top(pat, "|"):
+                        v = variant_of(alt, "Token")
+                        need(v, "TokenType arm " + text_of(pat))
+                        cls[v[0]] = body[2][1]
+    variants, payload = need(T.get("token.enum"), "enum Token")
     for v in variants + list(payload):
         if v not in cls:
             raise Missing("TokenType arm for Token::" + v)
+    return ttypes, cls
 
-    # --- LSP legend
-    lsp = read("abasic-lsp/src/main.rs")
-    m = need(re.search(r"const TOKEN_TYPES: &\[SemanticTokenType;\s*(\d+)\]\s*=\s*&\[(.*?)\];", lsp, re.S), "LSP legend")
-    legend_len = int(m.group(1))
-    legend = re.findall(r"SemanticTokenType::(\w+)", m.group(2))
-    if len(legend) != legend_len:
-        raise Missing("LSP legend length")
-    lspidx = dict((a, int(b)) for a, b in re.findall(r"TokenType::(\w+)\s*=>\s*(\d+),", need(re.search(r"fn abasic_token_type_to_lsp_token_type.*?\{(.*?)\n\}", lsp, re.S), "LSP index map").group(1)))
+
+@table("lsp")
+def _():
+    rel = "abasic-lsp/src/main.rs"
+    toks = toks_of(rel)
+    # the legend is the one array literal (const, static or vec!) whose elements are all `SemanticTokenType::X`
+    legends = []
+    for i in find_all(toks, ["[", "SemanticTokenType", "::"]):
+        parts = split_top(toks[i + 1:close_of(toks, i)])
+        if parts and all(len(p) == 3 and is_id(p[0], "SemanticTokenType") and is_p(p[1], "::") and p[2][0] == "id" for p in parts):
+            legends.append([p[2][1] for p in parts])
+    need(len(legends) == 1, "LSP legend (array of SemanticTokenType::X)")
+    legend = legends[0]
+    o, c = fn_body(toks, "abasic_token_type_to_lsp_token_type", rel)
+    mi = find_seq(toks, ["match"], o, c)
+    brace = find_seq(toks, ["{"], mi, c)
+    lspidx = {}
+    for pat, body in match_arms(toks, brace):
+        for alt in split_top(pat, "|"):
+            v = variant_of(alt, "TokenType")
+            need(v and len(body) == 1 and body[0][0] == "num", "LSP index arm " + text_of(pat + body))
+            lspidx[v[0]] = int(re.match(r"\d+", body[0][1]).group(0))
+    ttypes, _c = need(T.get("tokentype"), "enum TokenType")
     for t in ttypes:
         if t not in lspidx:
             raise Missing("LSP index for TokenType::" + t)
+    return legend, lspidx
 
-    # --- builtins
-    bi = read("abasic-core/src/builtins.rs")
-    builtins = re.findall(r'"([A-Z]+)"\s*=>\s*Builtin::(\w+),', bi)
+
+@table("builtins")
+def _():
+    rel = "abasic-core/src/builtins.rs"
+    toks = toks_of(rel)
+    builtins = []
+    for i in find_all(toks, [("str", None), "=>"]):
+        j = i + 2
+        if is_id(toks[j], "Some") and is_p(toks[j + 1], "("):
+            j += 2
+        if is_id(toks[j], "Builtin") and is_p(toks[j + 1], "::"):
+            builtins.append((toks[i][1], toks[j + 2][1]))
     if sorted(b for _, b in builtins) != ["Abs", "Int", "Rnd"]:
         raise Missing("builtin table changed: %r" % builtins)
+    return builtins
 
-    # --- constants
-    prog = read("abasic-core/src/program.rs")
-    arr = read("abasic-core/src/arrays.rs")
-    rnd = read("abasic-core/src/random.rs")
-    consts = {
-        "stackLimit": const_expr(prog, "STACK_LIMIT", "STACK_LIMIT"),
-        "nestingLimit": const_expr(prog, "NESTING_LIMIT", "NESTING_LIMIT"),
-        "maxDimTotalElements": const_expr(arr, "MAX_DIM_TOTAL_ELEMENTS", "MAX_DIM_TOTAL_ELEMENTS"),
-        "defaultArraySize": const_expr(arr, "DEFAULT_ARRAY_SIZE", "DEFAULT_ARRAY_SIZE"),
-        "rngModulus": const_expr(rnd, "MODULUS", "MODULUS"),
-        "rngMultiplier": const_expr(rnd, "MULTIPLIER", "MULTIPLIER"),
-        "rngIncrement": const_expr(rnd, "INCREMENT", "INCREMENT"),
-    }
 
-    # --- commands
-    interp = read("abasic-core/src/interpreter.rs")
-    m = need(re.search(r"fn maybe_process_command.*?match first_word\.to_ascii_uppercase\(\)\.as_str\(\)\s*\{(.*?)\n            _ =>", interp, re.S), "command table")
-    commands = re.findall(r'\n            "([A-Z]+)"\s*=>', "\n" + m.group(1))
+@table("consts.program")
+def _():
+    return {"stackLimit": const_expr("abasic-core/src/program.rs", "STACK_LIMIT"), "nestingLimit": const_expr("abasic-core/src/program.rs", "NESTING_LIMIT")}
+
+
+@table("consts.arrays")
+def _():
+    return {"maxDimTotalElements": const_expr("abasic-core/src/arrays.rs", "MAX_DIM_TOTAL_ELEMENTS"),
+            "defaultArraySize": const_expr("abasic-core/src/arrays.rs", "DEFAULT_ARRAY_SIZE")}
+
+
+@table("consts.random")
+def _():
+    return {"rngModulus": const_expr("abasic-core/src/random.rs", "MODULUS"), "rngMultiplier": const_expr("abasic-core/src/random.rs", "MULTIPLIER"),
+            "rngIncrement": const_expr("abasic-core/src/random.rs", "INCREMENT")}
+
+
+@table("commands")
+def _():
+    rel = "abasic-core/src/interpreter.rs"
+    toks = toks_of(rel)
+    o, c = fn_body(toks, "maybe_process_command", rel)
+    mi = find_seq(toks, ["match"], o, c)
+    brace = find_seq(toks, ["{"], mi, c)
+    need(mi >= 0 and brace >= 0, "command table")
+    scrut = text_of(toks[mi + 1:brace])
+    if "to_ascii_uppercase" not in scrut and "to_uppercase" not in scrut:
+        raise Missing("command table: the word is no longer upper-cased before the match (%s)" % scrut)
+    commands = []
+    for pat, _b in match_arms(toks, brace):
+        for alt in split_top(pat, "|"):
+            if len(alt) == 1 and alt[0][0] == "str":
+                commands.append(alt[0][1])
+            elif not (len(alt) == 1 and is_id(alt[0], "_")):
+                raise Missing("command table: arm " + text_of(pat))
     if sorted(commands) != sorted(["RUN", "LIST", "NEW", "CONT", "TRACE", "NOTRACE", "INTERNALS", "STATS"]):
         raise Missing("command table changed: %r" % commands)
+    return commands
 
-    # --- error messages
-    ie = read("abasic-core/src/interpreter_error.rs")
-    errdisp = dict(re.findall(r'InterpreterError::(\w+)(?:\(\w+\))?\s*=>\s*\{\s*write!\(f,\s*"((?:[^"\\]|\\.)*)"', ie))
-    oom = dict(re.findall(r'OutOfMemoryError::(\w+)\s*=>\s*write!\(f,\s*"([^"]*)"\)', ie))
-    se = read("abasic-core/src/syntax_error.rs")
-    tokerr = dict(re.findall(r'TokenizationError::(\w+)\(_\)\s*=>\s*write!\(f,\s*"([^"]*)"\)', se))
-    synerr = dict(re.findall(r'SyntaxError::(\w+)(?:\(\w+\))?\s*=>\s*write!\(f,\s*"([^"]*)"', se))
-    errnames = ["TypeMismatch", "DataTypeMismatch", "UndefinedStatement", "OutOfMemory", "OutOfData", "ReturnWithoutGosub",
-                "NextWithoutFor", "BadSubscript", "IllegalQuantity", "Unimplemented", "DivisionByZero", "RedimensionedArray",
-                "CannotContinue", "IllegalDirect"]
-    for e in errnames:
+
+ERRNAMES = ["TypeMismatch", "DataTypeMismatch", "UndefinedStatement", "OutOfMemory", "OutOfData", "ReturnWithoutGosub",
+            "NextWithoutFor", "BadSubscript", "IllegalQuantity", "Unimplemented", "DivisionByZero", "RedimensionedArray",
+            "CannotContinue", "IllegalDirect"]
+
+
+@table("messages")
+def _():
+    ie = "abasic-core/src/interpreter_error.rs"
+    se = "abasic-core/src/syntax_error.rs"
+    # TracedInterpreterError's Display matches on InterpreterError variants
+    toks = toks_of(ie)
+    errdisp = {}
+    for (o, c) in impl_body(toks, "Display", "TracedInterpreterError") + impl_body(toks, "Display", "InterpreterError"):
+        for mi in find_all(toks, ["match"], o, c):
+            brace = find_seq(toks, ["{"], mi, c)
+            for pat, body in match_arms(toks, brace):
+                v = variant_of(pat, "InterpreterError")
+                lit = write_literal(body)
+                if v and lit is not None:
+                    fmt = lit[0]
+                    if v[1] and lit[1] and [text_of(a) for a in lit[1]] == [v[1]]:
+                        fmt = fmt.replace("{}", "{%s}" % v[1], 1)
+                    errdisp[v[0]] = fmt
+    oom = dict((k, v[0]) for k, v in display_arms(ie, "OutOfMemoryError", "Display for OutOfMemoryError").items())
+    tokerr = dict((k, v[0]) for k, v in display_arms(se, "TokenizationError", "Display for TokenizationError").items())
+    synerr = dict((k, v[0].replace("{$0}", "{tok}")) for k, v in display_arms(se, "SyntaxError", "Display for SyntaxError").items())
+    for e in ERRNAMES:
         if e not in errdisp:
             raise Missing("Display arm for InterpreterError::" + e)
     for e in ["StackOverflow", "ArrayTooLarge"]:
@@ -202,175 +471,319 @@ def main():
     for e in ["UnexpectedToken", "ExpectedToken", "UnexpectedEndOfInput"]:
         if e not in synerr:
             raise Missing("Display arm for SyntaxError::" + e)
+    return errdisp, oom, tokerr, synerr
 
-    # --- emit
-    L = []
-    w = L.append
-    w("/- GENERATED by tools/extract.py from /repo's Rust source. DO NOT EDIT. -/")
-    w("namespace Abasic")
-    w("")
-    w("/-- Payload-free variants of `enum Token` (tokenizer.rs), in declaration order. -/")
-    w("inductive Kw where")
-    for v in variants:
-        w("  | %s" % v)
-    w("  deriving DecidableEq, Repr, Inhabited")
-    w("")
-    w("inductive TokenType where")
-    for t in ttypes:
-        w("  | %s" % t)
-    w("  deriving DecidableEq, Repr, Inhabited")
-    w("")
-    w("namespace Extracted")
-    w("")
-    w("def allKw : List Kw := [%s]" % ", ".join(".%s" % v for v in variants))
-    w("")
-    w("/-- Rust variant names (what `{:?}` prints). -/")
-    w("def kwName : Kw → String")
-    for v in variants:
-        w("  | .%s => %s" % (v, lean_str(v)))
-    w("")
-    w("/-- `impl Display for Token`, payload-free arms. -/")
-    w("def kwSpelling : Kw → String")
-    for v in variants:
-        w("  | .%s => %s" % (v, lean_str(disp[v])))
-    w("")
-    w("/-- `chomp_any_keyword`: (keyword text, token) in match order. -/")
-    w("def keywords : List (String × Kw) := [")
-    w(",\n".join("  (%s, .%s)" % (lean_str(k), v) for k, v in kws))
-    w("]")
-    w("def remKeyword : String := %s" % lean_str(rem_kw))
-    w("def dataKeyword : String := %s" % lean_str(data_kw))
-    w("")
-    w("/-- `chomp_one_or_two_characters`: first-byte table in match order. -/")
-    w("def oneChar : List (Char × Kw) := [")
-    w(",\n".join("  (%s, .%s)" % (lean_char(c), v) for c, v in one))
-    w("]")
-    w("def twoChar : List (Kw × Char × Kw) := [")
-    w(",\n".join("  (.%s, %s, .%s)" % (a, lean_char(c), r) for a, c, r in two))
-    w("]")
-    w("")
-    w("/-- `From<&Token> for TokenType`. -/")
-    w("def kwType : Kw → TokenType")
-    for v in variants:
-        w("  | .%s => .%s" % (v, cls[v]))
-    w("def remarkType : TokenType := .%s" % cls["Remark"])
-    w("def symbolType : TokenType := .%s" % cls["Symbol"])
-    w("def stringType : TokenType := .%s" % cls["StringLiteral"])
-    w("def numberType : TokenType := .%s" % cls["NumericLiteral"])
-    w("def dataType : TokenType := .%s" % cls["Data"])
-    w("")
-    w("/-- abasic-lsp: `abasic_token_type_to_lsp_token_type` and the advertised legend. -/")
-    w("def lspIndex : TokenType → Nat")
-    for t in ttypes:
-        w("  | .%s => %d" % (t, lspidx[t]))
-    w("def lspLegend : List String := [%s]" % ", ".join(lean_str(x) for x in legend))
-    w("")
-    w("def builtinAbs : String := %s" % lean_str([k for k, b in builtins if b == "Abs"][0]))
-    w("def builtinInt : String := %s" % lean_str([k for k, b in builtins if b == "Int"][0]))
-    w("def builtinRnd : String := %s" % lean_str([k for k, b in builtins if b == "Rnd"][0]))
-    w("")
-    for k, v in consts.items():
-        w("def %s : Nat := %d" % (k, v))
-    w("")
-    w("def commands : List String := [%s]" % ", ".join(lean_str(c) for c in commands))
-    w("")
-    for e in errnames:
-        w("def msg%s : String := %s" % (e, lean_str(bytes(errdisp[e], "utf-8").decode("unicode_escape"))))
-    w("def msgStackOverflow : String := %s" % lean_str(oom["StackOverflow"]))
-    w("def msgArrayTooLarge : String := %s" % lean_str(oom["ArrayTooLarge"]))
-    w("def msgIllegalCharacter : String := %s" % lean_str(tokerr["IllegalCharacter"]))
-    w("def msgUnterminatedString : String := %s" % lean_str(tokerr["UnterminatedStringLiteral"]))
-    w("def msgInvalidNumber : String := %s" % lean_str(tokerr["InvalidNumber"]))
-    w("def msgUnexpectedToken : String := %s" % lean_str(synerr["UnexpectedToken"]))
-    w("def msgExpectedToken : String := %s" % lean_str(synerr["ExpectedToken"]))
-    w("def msgUnexpectedEndOfInput : String := %s" % lean_str(synerr["UnexpectedEndOfInput"]))
-    w("")
-    # --- structure of the two expression walkers and the two statement dispatchers
-    ops_src = read("abasic-core/src/operators.rs")
-    from_token = {}
-    for im in re.finditer(r"impl (\w+) \{(.*?)\n\}", ops_src, re.S):
-        fm = re.search(r"pub fn from_token\(token: Token\) -> Option<Self> \{(.*?)\n    \}", im.group(2), re.S)
-        if fm:
-            from_token[im.group(1)] = re.findall(r"Token::(\w+)\s*=>\s*Some\(", fm.group(1))
-    need(from_token.get("UnaryOp"), "operators.rs: UnaryOp::from_token")
 
-    def walker(rel, what):
-        src = read(rel)
-        fns = {}
-        for fm in re.finditer(r"\n    (?:pub )?fn (evaluate_\w+)\b.*?\{(.*?)\n    \}", src, re.S):
-            fns[fm.group(1)] = fm.group(2)
-        entry = need(re.search(r"self\.(evaluate_\w+_expression)\(\)", fns.get("evaluate_expression", "")), what + ": evaluate_expression body")
-        chain, cur, unary = [], entry.group(1), None
-        for _ in range(12):
-            body = need(fns.get(cur), what + ": fn " + cur)
-            operand = need(re.search(r"self\.(evaluate_\w+)\(\)", body), what + ": operand of " + cur).group(1)
-            a = re.search(r"while self\s*\.program(?:\(\))?\s*\.accept_next_token\(Token::(\w+)\)", body)
-            t = re.search(r"while let Some\(\w+\) = self\s*\.program(?:\(\))?\s*\.try_next_token\((\w+)::from_token\)", body)
-            u = re.search(r"let \w+ = self\s*\.program(?:\(\))?\s*\.try_next_token\((\w+)::from_token\)", body)
-            if a:
-                chain.append([a.group(1)])
-            elif t:
-                chain.append(need(from_token.get(t.group(1)), "operators.rs: %s::from_token" % t.group(1)))
-            elif u and not t:
-                unary = need(from_token.get(u.group(1)), "operators.rs: %s::from_token" % u.group(1))
-                break
-            else:
-                raise Missing(what + ": cannot classify tier function " + cur)
-            cur = operand
-        need(unary, what + ": unary tier")
-        return chain, unary
-
-    ev_chain, ev_unary = walker("abasic-core/src/expression.rs", "expression.rs")
-    an_chain, an_unary = walker("abasic-core/src/analyzer/expression_analyzer.rs", "expression_analyzer.rs")
-
-    def dispatch(rel, fn, what):
-        src = read(rel)
-        fm = need(re.search(r"fn %s\b.*?match self\s*\.program(?:\(\))?\s*\.next_token\(\) \{(.*?)\n        \}" % fn, src, re.S), what)
+def from_token_tables():
+    rel = "abasic-core/src/operators.rs"
+    toks = toks_of(rel)
+    out = {}
+    for i in find_all(toks, ["impl", ("id", None), "{"]):
+        name = toks[i + 1][1]
+        o, c = i + 2, close_of(toks, i + 2)
+        r = item_body(toks[:c + 1], "fn", "from_token", o)
+        if not r:
+            continue
+        mi = find_seq(toks, ["match"], r[0], r[1])
+        if mi < 0:
+            continue
+        brace = find_seq(toks, ["{"], mi, r[1])
         heads = []
-        for arm in re.finditer(r"\n            (Some\([^=]*?)=>", fm.group(1)):
-            heads += re.findall(r"Token::(\w+)", arm.group(1))
-        need(heads, what + ": arms")
-        return heads
+        for pat, body in match_arms(toks, brace):
+            if find_seq(body, ["Some", "("]) == 0:
+                for alt in split_top(pat, "|"):
+                    v = variant_of(alt, "Token")
+                    need(v, "operators.rs: %s::from_token arm %s" % (name, text_of(pat)))
+                    heads.append(v[0])
+        out[name] = heads
+    return out
 
-    ev_disp = dispatch("abasic-core/src/statement.rs", "evaluate_statement", "statement.rs: evaluate_statement dispatch")
-    an_disp = dispatch("abasic-core/src/analyzer/statement_analyzer.rs", "evaluate_statement", "statement_analyzer.rs: evaluate_statement dispatch")
+
+def program_call(toks, i):
+    """is the method name at index i called on `self.program` / `self.program()`?  returns the index of `self` or -1"""
+    j = i - 1
+    if j < 0 or not is_p(toks[j], "."):
+        return -1
+    j -= 1
+    if j >= 1 and is_p(toks[j], ")") and is_p(toks[j - 1], "("):
+        j -= 2
+    if j >= 2 and is_id(toks[j], "program") and is_p(toks[j - 1], ".") and is_id(toks[j - 2], "self"):
+        return j - 2
+    return -1
+
+
+def walker(rel, from_token):
+    toks = toks_of(rel)
+    # the impl that holds evaluate_expression
+    eo, ec = fn_body(toks, "evaluate_expression", rel)
+    entry = None
+    for i in find_all(toks, ["self", ".", ("id", None), "(", ")"], eo, ec):
+        if toks[i + 2][1].startswith("evaluate_"):
+            entry = toks[i + 2][1]
+            break
+    need(entry, rel + ": evaluate_expression body")
+    chain, cur, unary = [], entry, None
+    for _ in range(12):
+        o, c = fn_body(toks, cur, rel)
+        operand = None
+        for i in find_all(toks, ["self", ".", ("id", None), "(", ")"], o, c):
+            if toks[i + 2][1].startswith("evaluate_"):
+                operand = toks[i + 2][1]
+                break
+        need(operand, rel + ": operand of " + cur)
+        tier = None
+        for i in find_all(toks, ["accept_next_token", "(", "Token", "::", ("id", None), ")"], o, c):
+            s = program_call(toks, i)
+            if s >= 1 and is_id(toks[s - 1], "while"):
+                tier = [toks[i + 4][1]]
+        for i in find_all(toks, ["try_next_token", "(", ("id", None), "::", "from_token", ")"], o, c):
+            s = program_call(toks, i)
+            if s < 0:
+                continue
+            ty = toks[i + 2][1]
+            before = text_of(toks[max(o, s - 7):s])
+            if re.search(r"while let Some\(\w+\)=$", before):
+                tier = need(from_token.get(ty), "operators.rs: %s::from_token" % ty)
+            elif re.search(r"let (mut )?\w+(:[^=]+)?=$", before) or re.search(r"(if|match) (let Some\(\w+\)=)?$", before):
+                unary = need(from_token.get(ty), "operators.rs: %s::from_token" % ty)
+        if unary is not None and tier is None:
+            break
+        if tier is None:
+            raise Missing(rel + ": cannot classify tier function " + cur)
+        chain.append(tier)
+        cur = operand
+    need(unary, rel + ": unary tier")
+    return chain, unary
+
+
+@table("walkers")
+def _():
+    ft = from_token_tables()
+    need(ft.get("UnaryOp"), "operators.rs: UnaryOp::from_token")
+    return walker("abasic-core/src/expression.rs", ft), walker("abasic-core/src/analyzer/expression_analyzer.rs", ft)
+
+
+def dispatch(rel):
+    toks = toks_of(rel)
+    o, c = fn_body(toks, "evaluate_statement", rel)
+    brace = -1
+    for mi in find_all(toks, ["match"], o, c):
+        b = find_seq(toks, ["{"], mi, c)
+        if "next_token()" in text_of(toks[mi + 1:b]):
+            brace = b
+            break
+    need(brace >= 0, rel + ": evaluate_statement dispatch")
+    heads = []
+    for pat, _b in match_arms(toks, brace):
+        if pat and is_id(pat[0], "Some"):
+            for i in find_all(pat, ["Token", "::", ("id", None)]):
+                heads.append(pat[i + 2][1])
+    need(heads, rel + ": evaluate_statement arms")
+    return heads
+
+
+@table("dispatch")
+def _():
+    return dispatch("abasic-core/src/statement.rs"), dispatch("abasic-core/src/analyzer/statement_analyzer.rs")
+
+
+# ----------------------------------------------------------------------------------------------------------------
+# emission: the file is a sequence of sections; a section whose tables could not be read keeps its previous text
+
+def kwl(lst):
+    return "[%s]" % ", ".join("." + k for k in lst)
+
+
+def sec_kw():
+    variants, _ = T["token.enum"]
+    L = ["/-- Payload-free variants of `enum Token` (tokenizer.rs), in declaration order. -/", "inductive Kw where"]
+    L += ["  | %s" % v for v in variants]
+    L += ["  deriving DecidableEq, Repr, Inhabited", ""]
+    return L
+
+
+def sec_tokentype():
+    ttypes, _ = T["tokentype"]
+    return ["inductive TokenType where"] + ["  | %s" % t for t in ttypes] + ["  deriving DecidableEq, Repr, Inhabited", ""]
+
+
+def sec_names():
+    variants, _ = T["token.enum"]
+    L = ["def allKw : List Kw := [%s]" % ", ".join(".%s" % v for v in variants), "", "/-- Rust variant names (what `{:?}` prints). -/", "def kwName : Kw → String"]
+    L += ["  | .%s => %s" % (v, lean_str(v)) for v in variants]
+    return L + [""]
+
+
+def sec_spelling():
+    variants, _ = T["token.enum"]
+    disp = T["token.display"]
+    return ["/-- `impl Display for Token`, payload-free arms. -/", "def kwSpelling : Kw → String"] + ["  | .%s => %s" % (v, lean_str(disp[v])) for v in variants] + [""]
+
+
+def sec_keywords():
+    kws, rem_kw, data_kw = T["token.keywords"]
+    return ["/-- `chomp_any_keyword`: (keyword text, token) in match order. -/", "def keywords : List (String × Kw) := [",
+            ",\n".join("  (%s, .%s)" % (lean_str(k), v) for k, v in kws), "]", "def remKeyword : String := %s" % lean_str(rem_kw),
+            "def dataKeyword : String := %s" % lean_str(data_kw), ""]
+
+
+def sec_chars():
+    one, two = T["token.chars"]
+    return ["/-- `chomp_one_or_two_characters`: first-byte table in match order. -/", "def oneChar : List (Char × Kw) := [",
+            ",\n".join("  (%s, .%s)" % (lean_char(c), v) for c, v in one), "]", "def twoChar : List (Kw × Char × Kw) := [",
+            ",\n".join("  (.%s, %s, .%s)" % (a, lean_char(c), r) for a, c, r in two), "]", ""]
+
+
+def sec_kwtype():
+    variants, _ = T["token.enum"]
+    _, cls = T["tokentype"]
+    L = ["/-- `From<&Token> for TokenType`. -/", "def kwType : Kw → TokenType"] + ["  | .%s => .%s" % (v, cls[v]) for v in variants]
+    L += ["def remarkType : TokenType := .%s" % cls["Remark"], "def symbolType : TokenType := .%s" % cls["Symbol"],
+          "def stringType : TokenType := .%s" % cls["StringLiteral"], "def numberType : TokenType := .%s" % cls["NumericLiteral"],
+          "def dataType : TokenType := .%s" % cls["Data"], ""]
+    return L
+
+
+def sec_lsp():
+    ttypes, _ = T["tokentype"]
+    legend, lspidx = T["lsp"]
+    return ["/-- abasic-lsp: `abasic_token_type_to_lsp_token_type` and the advertised legend. -/", "def lspIndex : TokenType → Nat"] + \
+        ["  | .%s => %d" % (t, lspidx[t]) for t in ttypes] + ["def lspLegend : List String := [%s]" % ", ".join(lean_str(x) for x in legend), ""]
+
+
+def sec_builtins():
+    b = T["builtins"]
+    return ["def builtin%s : String := %s" % (n, lean_str([k for k, x in b if x == n][0])) for n in ("Abs", "Int", "Rnd")] + [""]
+
+
+def sec_consts(name):
+    def f():
+        return ["def %s : Nat := %d" % (k, v) for k, v in T[name].items()]
+    return f
+
+
+def sec_commands():
+    return ["", "def commands : List String := [%s]" % ", ".join(lean_str(c) for c in T["commands"]), ""]
+
+
+def sec_messages():
+    errdisp, oom, tokerr, synerr = T["messages"]
+    L = ["def msg%s : String := %s" % (e, lean_str(errdisp[e])) for e in ERRNAMES]
+    L += ["def msgStackOverflow : String := %s" % lean_str(oom["StackOverflow"]), "def msgArrayTooLarge : String := %s" % lean_str(oom["ArrayTooLarge"]),
+          "def msgIllegalCharacter : String := %s" % lean_str(tokerr["IllegalCharacter"]),
+          "def msgUnterminatedString : String := %s" % lean_str(tokerr["UnterminatedStringLiteral"]),
+          "def msgInvalidNumber : String := %s" % lean_str(tokerr["InvalidNumber"]), "def msgUnexpectedToken : String := %s" % lean_str(synerr["UnexpectedToken"]),
+          "def msgExpectedToken : String := %s" % lean_str(synerr["ExpectedToken"]),
+          "def msgUnexpectedEndOfInput : String := %s" % lean_str(synerr["UnexpectedEndOfInput"]), ""]
+    return L
+
+
+def sec_walkers():
+    (ev_chain, ev_unary), (an_chain, an_unary) = T["walkers"]
+    return ["/-- expression.rs: the binary tiers from `evaluate_expression` inwards (operator tokens each loop accepts), then the unary tier. -/",
+            "def evalChain : List (List Kw) := [%s]" % ", ".join(kwl(t) for t in ev_chain), "def evalUnary : List Kw := %s" % kwl(ev_unary),
+            "/-- analyzer/expression_analyzer.rs: the same structure of the analyzer's fork. -/",
+            "def anaChain : List (List Kw) := [%s]" % ", ".join(kwl(t) for t in an_chain), "def anaUnary : List Kw := %s" % kwl(an_unary)]
+
+
+def sec_dispatch():
+    variants, _ = T["token.enum"]
+    ev_disp, an_disp = T["dispatch"]
     kwset = set(variants)
+    return ["/-- statement.rs / analyzer/statement_analyzer.rs: the keyword tokens `evaluate_statement` dispatches on (in arm order), and the payload tokens (sorted). -/",
+            "def evalStmtKws : List Kw := %s" % kwl([k for k in ev_disp if k in kwset]),
+            "def evalStmtOther : List String := [%s]" % ", ".join(lean_str(k) for k in sorted(k for k in ev_disp if k not in kwset)),
+            "def anaStmtKws : List Kw := %s" % kwl([k for k in an_disp if k in kwset]),
+            "def anaStmtOther : List String := [%s]" % ", ".join(lean_str(k) for k in sorted(k for k in an_disp if k not in kwset)), ""]
 
-    def kws(lst):
-        return "[%s]" % ", ".join("." + k for k in lst)
 
-    w("/-- expression.rs: the binary tiers from `evaluate_expression` inwards (operator tokens each loop accepts), then the unary tier. -/")
-    w("def evalChain : List (List Kw) := [%s]" % ", ".join(kws(t) for t in ev_chain))
-    w("def evalUnary : List Kw := %s" % kws(ev_unary))
-    w("/-- analyzer/expression_analyzer.rs: the same structure of the analyzer's fork. -/")
-    w("def anaChain : List (List Kw) := [%s]" % ", ".join(kws(t) for t in an_chain))
-    w("def anaUnary : List Kw := %s" % kws(an_unary))
-    w("/-- statement.rs / analyzer/statement_analyzer.rs: the keyword tokens `evaluate_statement` dispatches on, and the payload tokens. -/")
-    w("def evalStmtKws : List Kw := %s" % kws([k for k in ev_disp if k in kwset]))
-    w("def evalStmtOther : List String := [%s]" % ", ".join(lean_str(k) for k in ev_disp if k not in kwset))
-    w("def anaStmtKws : List Kw := %s" % kws([k for k in an_disp if k in kwset]))
-    w("def anaStmtOther : List String := [%s]" % ", ".join(lean_str(k) for k in an_disp if k not in kwset))
-    w("")
-    w("end Extracted")
-    w("end Abasic")
-    text = "\n".join(L) + "\n"
+SECTIONS = [
+    ("header", [], lambda: ["/- GENERATED by tools/extract.py from /repo's Rust source. DO NOT EDIT. -/", "namespace Abasic", ""]),
+    ("Kw", ["token.enum"], sec_kw),
+    ("TokenType", ["tokentype"], sec_tokentype),
+    ("open", [], lambda: ["namespace Extracted", ""]),
+    ("names", ["token.enum"], sec_names),
+    ("spelling", ["token.enum", "token.display"], sec_spelling),
+    ("keywords", ["token.keywords"], sec_keywords),
+    ("chars", ["token.chars"], sec_chars),
+    ("kwType", ["token.enum", "tokentype"], sec_kwtype),
+    ("lsp", ["tokentype", "lsp"], sec_lsp),
+    ("builtins", ["builtins"], sec_builtins),
+    ("consts.program", ["consts.program"], sec_consts("consts.program")),
+    ("consts.arrays", ["consts.arrays"], sec_consts("consts.arrays")),
+    ("consts.random", ["consts.random"], sec_consts("consts.random")),
+    ("commands", ["commands"], sec_commands),
+    ("messages", ["messages"], sec_messages),
+    ("walkers", ["walkers"], sec_walkers),
+    ("dispatch", ["token.enum", "dispatch"], sec_dispatch),
+    ("footer", [], lambda: ["end Extracted", "end Abasic"]),
+]
 
-    old = None
+MARK = "-- § "
+
+
+def old_sections():
+    out = {}
+    if not os.path.exists(OUT):
+        return out
+    cur = None
+    with open(OUT, encoding="utf-8") as f:
+        for line in f.read().split("\n"):
+            if line.startswith(MARK):
+                cur = line[len(MARK):].strip()
+                out[cur] = []
+            elif cur is not None:
+                out[cur].append(line)
+    return out
+
+
+def main():
+    old = old_sections()
+    L = []
+    stale = []
+    for name, needs, fn in SECTIONS:
+        L.append(MARK + name)
+        if all(n in T for n in needs):
+            L += fn()
+        elif name in old:
+            # keep the section as it was extracted last time; the failure is reported below
+            body = old[name]
+            while body and body[-1] == "" and name == "footer":
+                body = body[:-1]
+            L += body
+            stale.append(name)
+        else:
+            print("extract: cannot find table: %s (and no earlier extraction of section %s to fall back on)" % ("; ".join(FAILED.values()), name))
+            return 3
+    text = "\n".join(L)
+    text = text.rstrip("\n") + "\n"
+
+    prev = None
     if os.path.exists(OUT):
         with open(OUT, encoding="utf-8") as f:
-            old = f.read()
-    if old != text:
+            prev = f.read()
+    if prev != text:
         with open(OUT, "w", encoding="utf-8") as f:
             f.write(text)
         print("extract: Extracted.lean rewritten")
     else:
         print("extract: Extracted.lean unchanged")
+    affected = sorted({p for t in FAILED for p in DEPS.get(t, ALL)})
+    status = {"failed": FAILED, "stale_sections": stale, "affected_properties": affected}
+    cache = os.path.join(os.path.dirname(os.path.abspath(__file__)), "..", ".cache")
+    try:
+        os.makedirs(cache, exist_ok=True)
+        with open(os.path.join(cache, "extract_status.json"), "w") as f:
+            json.dump(status, f, indent=1)
+    except OSError:
+        pass
+    if FAILED:
+        for t, why in sorted(FAILED.items()):
+            print("extract: cannot find table: %s: %s" % (t, why))
+        print("extract: affected properties: %s" % " ".join(affected))
+        return 3
     return 0
 
 
 if __name__ == "__main__":
-    try:
-        sys.exit(main())
-    except Missing as e:
-        print("extract: cannot find table: %s" % e)
-        sys.exit(3)
+    sys.exit(main())
